@@ -77,6 +77,7 @@ for name in sys.argv[1:]:
                     return norm(th, incompare)
                 if bs == th: return ours
                 merged = reinsert(ours, bs, th)
+                if merged is None: merged = reinsert(ours, norm(bs, incompare), norm(th, incompare))
                 if merged is not None: return merged
                 bad.append((ours[:80], bs[:80]))
                 return mm.group(0)
